@@ -165,7 +165,7 @@ def run(tier):
     ck.coverage["programs_checked"] = checked
     ck.coverage["programs_discarded_by_model"] = discarded
     return ck.finish("(a) %d doubles (boundaries + random bit patterns / integers / short decimals) injected as host "
-                     "globals, printed three ways and parsed back; (b) decimal literals compared with the host's nearest "
+                     "globals, printed three ways and parsed back; (b) decimal literals (short exhaustively; 12-24 significant digits and shortest texts of random doubles sampled) compared with the host's nearest "
                      "double; (c) digit strings followed by each dot-suffix; non-trivial = distinct double / literal / "
                      "lexing case" % len(doubles))
 
